@@ -622,13 +622,18 @@ func c15Run(c *fw.Ctx) {
 	for _, cs := range fixedReuse {
 		execReuse(c, cs, nil)
 	}
+	runDeep(c)
 	n := c.Pick(20000, 1000000)
 	for i := 0; i < n; i++ {
 		if !c.Mine(i) {
 			continue
 		}
 		r := c.Rand("c15", i)
-		switch k := r.Intn(22); {
+		switch k := r.Intn(23); {
+		case k == 22:
+			t := genDeepRandom(r)
+			exec(c, c15Case{Kind: "tree", Doc: string(renderDoc(r, t))}, t)
+			c.Observe("universe", "deep family: random deep trees (depth 10..300, random side subtrees)", 1)
 		case k >= 20:
 			cs, trees := genReuse(r)
 			execReuse(c, cs, trees)
@@ -684,6 +689,8 @@ func init() {
 			"strict harness reader and must denote the generated tree. Each document is captured as internal.RawXMLValue (xml.Unmarshal, Decoder.Decode, every child through an ',any' field), " +
 			"then XMLName(), TokenReader() and xml.Marshal are observed; outputs are re-read with encoding/xml's namespace-translating tokenizer and compared as namespace-expanded trees. " +
 			"Typed documents for every exported element type of package internal and mirrors of the caldav/carddav property shapes: raw.Decode vs xml.Unmarshal; Prop.Get / Prop.Decode / Response.DecodeProp vs the property element decoded on its own. " +
+			"Deep family (the statement says 'for every nesting depth'): chains, chains with siblings before and after the deep child at every level, nested caldav comp-in-comp and DAV prop/resourcetype/response/multistatus/propertyupdate containers holding a deep property, " +
+			"at EVERY depth 1..72 and at 96, 127-130, 255-258, 511, 513, 1000, in a plain and in random lexical forms, plus random deep trees (depth 10..300); the small fixed ones are run by every shard first. " +
 			"Reuse sequences: 2 or 3 documents captured one after the other into ONE variable (xml.Unmarshal, Decoder.Decode, DecodeElement, a struct field, a single ',any' field of a wrapper decoded repeatedly), a value copy kept after each capture " +
 			"(assignment, slice append, pointer dereference) with the next document having fewer, as many and more children; every kept copy is observed at copy time and again at the end (token stream, Marshal output, Decode results must not change). " +
 			"distinct_nontrivial counts distinct (case kind, typed element or child count, set of namespace/lexical features present, depth).",
